@@ -1092,10 +1092,48 @@ def _judge_named_esn(sc):
         gc.collect()
 
 
+def _judge_concat_refit(sc):
+    """Two inputs named '<p>in' and '<p>in2' (or '<p>R-1' / '<p>R-10') feeding a readout through a Concat: the copy, trained further
+    on the same name-keyed data as the original, must give the same outputs (open finding copy:concat-order-after-refit)."""
+    rpy()
+    from reservoirpy.nodes import Input, Ridge
+    rng = core.random.Random(sc["seed"])
+    tag = "cr%d_" % next(_uid)
+    na, nb = [tag + x for x in sc["names"]]
+    a, b = Input(name=na), Input(name=nb)
+    rd = Ridge(ridge=float(Fraction(1, 1024)), name=tag + "rd")
+    m = [a, b] >> rd
+    wa, wb = sc["widths"]
+    data = lambda T, d: scen.fl(scengen.rows(rng, T, d, 8, 3))  # noqa: E731
+    Xa, Xb = data(24, wa), data(24, wb)
+    Y = Xa @ scen.fl(scengen.mat(rng, wa, 1, 4, 1)) + 2.0 * (Xb @ scen.fl(scengen.mat(rng, wb, 1, 4, 1))) + 0.5
+    if sc["fit_before"]:
+        m.fit({na: Xa.copy(), nb: Xb.copy()}, Y.copy())
+    ok, c = _try(lambda: _copy_by(sc["how"], m))
+    if not ok:
+        return _viol("copy:exception", "copying raises: %s" % c, sc)
+    ca, cb = [n.name for n in c.nodes if n.name.startswith(na + "-") or n.name == na][0], [n.name for n in c.nodes if n.name.startswith(nb)][0]
+    oko, ro = _try(lambda: (m.fit({na: Xa.copy(), nb: Xb.copy()}, Y.copy()), m.run({na: Xa.copy(), nb: Xb.copy()}))[1])
+    if not oko:
+        return None
+    okc, rc = _try(lambda: (c.fit({ca: Xa.copy(), cb: Xb.copy()}, Y.copy()), c.run({ca: Xa.copy(), cb: Xb.copy()}))[1])
+    if not okc:
+        return _viol("copy:concat-order-after-refit", "fit + run with name-keyed inputs works on the original but raises on its %s copy: %s" % (sc["how"], rc), sc, "no exception", rc)
+    ro, rc = np.asarray(ro), np.asarray(rc)
+    if ro.shape != rc.shape or not np.allclose(ro, rc, rtol=1e-8, atol=1e-8):
+        return _viol("copy:concat-order-after-refit", "trained on the same name-keyed data, the %s copy (inputs %s) returns other outputs than the original "
+                     "(max abs difference %.3g; its Concat is trained on one parent order and run on another)"
+                     % (sc["how"], [ca, cb], float(np.max(np.abs(ro - rc))) if ro.shape == rc.shape else float("nan")), sc, ro[:4].tolist(), rc[:4].tolist())
+    return None
+
+
 SPECIALS = ([{"family": "online", "node": nd, "trained": tr, "how": how} for nd in ("lms", "force-rls", "force-lms") for tr in (True, False)
              for how in ("deepcopy", "pickle", "nodecopy")]
             + [{"family": "failedcopy", "copy_feedback": cf} for cf in (False, True)]
-            + [{"family": "namedesn", "how": how} for how in ("deepcopy", "pickle")])
+            + [{"family": "namedesn", "how": how} for how in ("deepcopy", "pickle")]
+            + [{"family": "concatrefit", "how": how, "names": nm, "widths": w, "fit_before": fbf}
+               for how, nm, w, fbf in (("deepcopy", ["in", "in2"], [2, 3], False), ("pickle", ["in", "in2"], [2, 2], True),
+                                       ("deepcopy", ["R-1", "R-10"], [2, 2], False), ("deepcopy", ["a", "b"], [2, 3], True))])
 
 
 LEGACY_GRID = [dict(bias=bz, sparse=sp, fb=fb, trained=tr, dout=do)
@@ -1185,6 +1223,8 @@ def _judge(sc):
         return _judge_failed_copy(sc)
     if sc["family"] == "namedesn":
         return _judge_named_esn(sc)
+    if sc["family"] == "concatrefit":
+        return _judge_concat_refit(sc)
     if sc["family"] == "ocopy":
         return _judge_copy(sc)
     if sc["family"] == "legacy":
